@@ -142,6 +142,17 @@ const FLAGS: [&str; 2] = ["ZED", "WIB"];
 /// function-like macros: defined names for #ifdef / #ifndef / #undef like the FLAGS
 const FNS: [&str; 2] = ["FNA", "FNB"];
 
+/// text of a string-bearing marker: some look like the start of a comment (a string of an
+/// unselected region must keep shielding its contents)
+fn marker_prefix(k: u32) -> &'static str {
+    match (k / 3) % 4 {
+        0 => "txt",
+        1 => "t/*x",
+        2 => "t//x",
+        _ => "#if ",
+    }
+}
+
 struct Gen<'a, 'b> {
     g: &'a mut G<'b>,
     next_marker: u32,
@@ -405,7 +416,7 @@ impl Render {
                 Item::Marker(k) => {
                     if k % 3 == 0 {
                         // a line with a string literal: its text must stay tied to this line
-                        self.emit(&format!("const char m{}[] = \"txt{}\";", k, k));
+                        self.emit(&format!("const char m{}[] = \"{}{}\";", k, marker_prefix(*k), k));
                     } else {
                         self.emit(&format!("char m{};", k));
                     }
@@ -609,15 +620,16 @@ pub fn check(case: &Case, st: &mut Stats) -> Result<(), String> {
             for v in &cap.vars {
                 if let Some(k) = v.name.strip_prefix('m').and_then(|n| n.parse::<u32>().ok()) {
                     if k % 3 == 0 && k > 0 && all_markers.contains(&k) && !case.headers.contains(&k) {
-                        let want: Vec<u8> = format!("txt{}\0", k).into_bytes();
+                        let want: Vec<u8> = format!("{}{}\0", marker_prefix(k), k).into_bytes();
                         let got: Vec<u8> = match &v.def {
                             cc::Def::Array(a) => a.iter().filter_map(|x| if let cc::Val::Int(i) = x { Some(*i as u8) } else { None }).collect(),
                             _ => vec![],
                         };
                         if got != want {
                             return Err(format!(
-                                "C07-text: the line `const char m{}[] = \"txt{}\";` of a selected region reached the compiler with other text: bytes {:?}",
+                                "C07-text: the line `const char m{}[] = \"{}{}\";` of a selected region reached the compiler with other text: bytes {:?}",
                                 k,
+                                marker_prefix(k),
                                 k,
                                 String::from_utf8_lossy(&got)
                             ));
